@@ -485,6 +485,54 @@ if __name__ == "__main__":
     finally:
         try: os.remove(sf)
         except OSError: pass
+    # the item stream ends exactly while a retired worker's replacement is being started (the filter is slow to pickle, which stretches that window): nobody waits for ever
+    WINDOW = r"""
+import sys, json, time
+sys.path.insert(0, %(repo)r); sys.path.insert(0, %(verif)r)
+import warnings; warnings.simplefilter("ignore")
+from harness.c08 import TableFilter
+STATE = {"pickles": 0, "busy": False}
+class SlowFilter(TableFilter):
+    def __getstate__(self):
+        STATE["pickles"] += 1; STATE["busy"] = True; time.sleep(0.7); STATE["busy"] = False
+        return dict(self.__dict__)
+def stream(k, n):
+    for j in range(k): yield j
+    t0 = time.time()      # end the stream while a replacement (not one of the first n workers) is being prepared
+    while not (STATE["pickles"] > n and STATE["busy"]) and time.time() - t0 < 6: time.sleep(0.01)
+if __name__ == "__main__":
+    from coba.pipes.multiprocessing import Multiprocessor
+    for n, m, k in ((1, 1, 4), (2, 1, 6)):
+        table = [([j], False, None) for j in range(k)]
+        STATE.update(pickles=0, busy=False)
+        print(json.dumps(["start", n, m]), flush=True)
+        try: out = ["returned", sorted(Multiprocessor(SlowFilter(table), n, m).filter(stream(k, n)))]
+        except Exception as e: out = ["raised", type(e).__name__]
+        print(json.dumps(["done", n, m, out, k]), flush=True)
+"""
+    sf = os.path.join(work, "c08_window_%d.py" % os.getpid()); open(sf, "w").write(WINDOW % dict(repo=REPO, verif=VERIF))
+    try:
+        import signal
+        pr = subprocess.Popen([sys.executable, "-W", "ignore", sf], stdout=subprocess.PIPE, stderr=subprocess.PIPE, text=True, env=dict(os.environ, PYTHONHASHSEED="0"), start_new_session=True)
+        try: so, se = pr.communicate(timeout=75); hung = False
+        except subprocess.TimeoutExpired:
+            try: os.killpg(pr.pid, signal.SIGKILL)
+            except OSError: pass
+            so, se = pr.communicate(); hung = True
+        recs = [json.loads(l) for l in so.splitlines() if l.startswith("[")]
+        done = {(r[1], r[2]): r for r in recs if r[0] == "done"}
+        for (n, m, k) in ((1, 1, 4), (2, 1, 6)):
+            desc = dict(n=n, m=m, items=k, real_processes=True, stream="ends while a replacement worker is being started", filter="slow to pickle")
+            ctx.count("window", repr(desc), True)
+            if (n, m) not in done:
+                started = any(r[0] == "start" and (r[1], r[2]) == (n, m) for r in recs)
+                if hung and started: ctx.fail(["hang", "real-processes", "replacement-window"], "the call did not come back although every item was handed over (n=%d, maxtasksperchild=%d, %d items)" % (n, m, k), desc)
+                elif not hung: ctx.fail(["smoke", "crashed"], "the run died: %s" % se[-200:], desc)
+                continue
+            if done[(n, m)][3] != ["returned", list(range(k))]: ctx.fail(["window", "wrong"], "the call ended as %r, expected the outputs 0..%d" % (done[(n, m)][3], k - 1), desc)
+    finally:
+        try: os.remove(sf)
+        except OSError: pass
     # an output that is None is indistinguishable from the pill of the output queue
     table = [([0], False, None), ([None, 1], False, None), ([2], False, None)]
     desc = dict(n=2, m=0, items=[[o, r, kd] for o, r, kd in table], schedule="fair")
